@@ -20,13 +20,15 @@ var classBytes = map[byte][][]byte{
 	'P': {[]byte("."), []byte("'"), []byte("-"), []byte("<"), []byte("&"), []byte("/"), []byte("@"), []byte("_"), []byte(">"), []byte("\"")},
 	'U': {[]byte("\xc3\xa9"), []byte("\xc3\x9f"), []byte("\xd0\xb6"), []byte("\xd8\xa7")}, // é ß ж ا
 	'C': {{0xa9}, {0x80}, {0xbf}},
-	'F': {{0xff}, {0xfe}, {0xc3}, {0xe4, 0xb8}}, // 0xFF; also a lead byte without continuation, a truncated 3-byte char
+	'F': {{0xff}, {0xfe}, {0xf8}},
+	'H': {{0xc3}, {0xe4}, {0xf0}},                         // a lead byte without continuation
+	'T': {{0xe4, 0xb8}, {0xf0, 0x9f}, {0xe2, 0x80}},       // a multi-byte character cut short
 	'J': {[]byte("\xe4\xb8\xad"), []byte("\xe3\x81\x82"), []byte("\xef\xbd\xb1"), []byte("\xed\x95\x9c")}, // 中 あ ｱ 한
 	'M': {[]byte("\xcc\x81"), []byte("\xcc\x88"), []byte("\xd9\x8e")},                                     // combining acute, diaeresis, arabic fatha
 	'Z': {[]byte("\xe2\x80\x8c"), []byte("\xe2\x80\x8d"), []byte("\xe2\x80\x8b")},                         // ZWNJ, ZWJ, ZWSP
 }
 
-const classOrder = "LDSPUJMZCF" // "simplest first": used to canonicalise a failing input
+const classOrder = "LDSPUJMZCFHT" // "simplest first": used to canonicalise a failing input
 
 type input struct {
 	Class string // class string, e.g. "LUC"
@@ -90,7 +92,7 @@ func generatedInputs(c *core.Ctx, n int) ([]input, error) {
 	p := 1
 	for i := 0; i <= n; i++ {
 		want += p
-		p *= 10
+		p *= len(classOrder)
 	}
 	if len(out) != want {
 		return nil, fmt.Errorf("TLC generated %d inputs, expected %d", len(out), want)
@@ -151,12 +153,12 @@ func seededInputs(seed int64, n int) []input {
 				}
 			}
 		case 4: // invalid bytes at the edges and between multi-byte characters
-			cl = append(cl, "CF"[rng.Intn(2)])
+			cl = append(cl, "CFHT"[rng.Intn(4)])
 			k := 2 + rng.Intn(10)
 			for j := 0; j < k; j++ {
-				cl = append(cl, "UJMZL"[rng.Intn(5)], "CFUJ"[rng.Intn(4)])
+				cl = append(cl, "UJMZL"[rng.Intn(5)], "CFHTUJ"[rng.Intn(6)])
 			}
-			cl = append(cl, "CF"[rng.Intn(2)])
+			cl = append(cl, "CFHT"[rng.Intn(4)])
 		case 5: // CJK / combining runs
 			k := 4 + rng.Intn(40)
 			for j := 0; j < k; j++ {
